@@ -188,6 +188,9 @@ pub fn structure_reach(ctx: &mut Ctx, kind: &str, bytes: &[u8]) {
                 for st in &streams {
                     ctx.metric(match st.check { 0 => "struct.xz.check_none", 1 => "struct.xz.check_crc32", 4 => "struct.xz.check_crc64", 10 => "struct.xz.check_sha256", _ => "struct.xz.check_other" }, 1);
                     ctx.metric(match st.blocks.len() { 0 => "struct.xz.stream_0_blocks", 1 => "struct.xz.stream_1_block", _ => "struct.xz.stream_many_blocks" }, 1);
+                    if st.blocks.len() >= 128 {
+                        ctx.metric("struct.xz.stream_128_or_more_blocks", 1);
+                    }
                     for b in &st.blocks {
                         if b.filters.len() > 1 {
                             ctx.metric("struct.xz.block_with_prefilter", 1);
